@@ -48,6 +48,7 @@ type plan struct {
 	ok   bool
 	msg  string
 	err  bool
+	slow time.Duration
 	seen [][4]string
 }
 
@@ -78,8 +79,14 @@ func callback(login, password, service, realm string) (bool, string, error) {
 	p.seen = append(p.seen, [4]string{login, password, service, realm})
 	ok, msg, e := p.ok, p.msg, p.err
 	mu.Unlock()
+	if p.slow > 0 {
+		time.Sleep(p.slow)
+	}
 	if e {
-		return ok, msg, errors.New("internal error in the provider")
+		if msg == "" {
+			msg = "internal error in the provider"
+		}
+		return ok, "", errors.New(msg) // the error text has the message's length class
 	}
 	return ok, msg, nil
 }
@@ -111,6 +118,10 @@ func talk(sock string, data []byte, chunks []int, fin string, wait time.Duration
 			n = len(left)
 		}
 		if n == 0 {
+			continue
+		}
+		if n < 0 { // a pause of -n milliseconds
+			time.Sleep(time.Duration(-n) * time.Millisecond)
 			continue
 		}
 		if _, err := uc.Write(left[:n]); err != nil {
@@ -159,6 +170,7 @@ func pamVerdict(reply []byte) (bool, bool) { // (success, understood): what pam_
 }
 
 type job struct {
+	slow   bool // pause several seconds in the middle of the request, slow callback
 	e      *ConnEdge
 	data   []byte
 	fields [][]byte
@@ -174,6 +186,9 @@ func runJob(sock string, j job, rng *rand.Rand) {
 	}
 	token := fmt.Sprintf("conn-%d;", j.id)
 	p := &plan{ok: e.Cb.Ok, msg: msgOf(e.Cb.Msg, token, rng), err: e.Cb.Err}
+	if j.slow {
+		p.slow = 1500 * time.Millisecond
+	}
 	if login != "" {
 		mu.Lock()
 		plans[login] = p
@@ -182,6 +197,9 @@ func runJob(sock string, j job, rng *rand.Rand) {
 	wait := 3 * time.Second
 	if e.Fin == "silent" && e.Stream == "bad" {
 		wait = 150 * time.Millisecond
+	}
+	if j.slow {
+		wait = 12 * time.Second
 	}
 	reply, eof, errs := talk(sock, j.data, j.chunks, e.Fin, wait)
 	mu.Lock()
@@ -265,7 +283,7 @@ func runJob(sock string, j job, rng *rand.Rand) {
 		violate("reply-not-decodable-by-pam:"+key, fmt.Sprintf("understood=%v verdict=%v", understood, pv), e)
 	}
 	// no cross talk: the message carries this connection's token
-	if e.Stream == "good" && !e.Cb.Err && e.Cb.Msg != "empty" && !bytes.Contains(part, []byte(token)) {
+	if e.Stream == "good" && e.Cb.Msg != "empty" && !bytes.Contains(part, []byte(token)) {
 		violate("cross-talk", fmt.Sprintf("reply %q does not carry %q", trunc(part), token), e)
 	}
 }
@@ -338,15 +356,23 @@ func main() {
 	}
 	id := 0
 	homs := saslmap.Homs(2)
+	slowLeft := 2
 	for i := range edges {
 		e := &edges[i]
 		pool := bad
 		if e.Stream == "good" {
 			pool = good
 		}
-		for k := 0; k < *perEdge; k++ {
+		n := *perEdge
+		if e.Stream == "bad" && e.Fin == "halfclose" {
+			n = len(bad) // every undecodable stream once, ended properly: the callback must never see it
+		}
+		for k := 0; k < n; k++ {
 			id++
 			se := pool[rng.Intn(len(pool))]
+			if n == len(bad) {
+				se = bad[k]
+			}
 			r := saslmap.Concretise(&se, homs[rng.Intn(2)], rng, false)
 			data := r.Data
 			if len(r.Extra) > 0 && rng.Intn(3) == 0 {
@@ -383,7 +409,14 @@ func main() {
 					left -= c
 				}
 			}
-			ch <- job{e: e, data: data, fields: r.Fields, chunks: chunks, id: id}
+			slow := false
+			if slowLeft > 0 && e.Stream == "good" && e.Fin == "halfclose" && e.Cb.Ok && !e.Cb.Err && len(data) > 4 {
+				// write timing: a request trickling in over several seconds and a slow callback still get their one reply
+				slowLeft--
+				slow = true
+				chunks = []int{2, -3000, len(data) / 2, -3000, len(data)}
+			}
+			ch <- job{e: e, data: data, fields: r.Fields, chunks: chunks, id: id, slow: slow}
 		}
 	}
 	close(ch)
